@@ -24,7 +24,9 @@ def declaredOver (r : Req) : Bool :=
       size exceeds the limit;
     * when the handler's read ends cleanly (io.EOF) it has received the whole body, and the body
       is within the limit — never a silently truncated body, never more than the limit;
-    * a body within the limit that arrives over a well-behaved transport reads cleanly.
+    * a body within the limit that arrives over a well-behaved transport reads cleanly;
+    * in every case the handler receives a prefix of the body of at most `limit` bytes, and ErrBodyLimitExceeded is
+      reported only for a body over the limit, after exactly `limit` bytes.
     On a skipped path the middleware must not interfere at all. -/
 def specOK (r : Req) (o : Obs) : Bool :=
   if r.skip then
@@ -35,6 +37,10 @@ def specOK (r : Req) (o : Obs) : Bool :=
   else
     (if o.err == .eof then o.data == r.body && decide (r.body.length ≤ r.limit) else true)
       && (if decide (r.body.length ≤ r.limit) && wellBehaved r.script then o.err == .eof else true)
+      -- whatever the outcome: what the handler received is a prefix of the body, never more than the limit; and the
+      -- limit error is raised only for a body that really is over the limit, after exactly `limit` bytes
+      && o.data.isPrefixOf r.body && decide (o.data.length ≤ r.limit)
+      && (if o.err == .limit then decide (r.body.length > r.limit) && decide (o.data.length = r.limit) else true)
 
 /-- the statement's word on the rejection: it "answers 413" (the body of the answer is not specified) -/
 def errSpecOK (o : ErrResp) : Bool := o.status == 413
